@@ -95,3 +95,76 @@ harness! {
 }
 
 // ---- C14: HashRepeat is a multiset of hashes (bounded: 4 operations over 2 boards) ------------
+use core::fmt::Write;
+pub struct Buf64 { pub b: [u8; 64], pub n: usize }
+impl core::fmt::Write for Buf64 {
+    fn write_str(&mut self, s: &str) -> core::fmt::Result {
+        for &c in s.as_bytes() { if self.n >= 64 { return Err(core::fmt::Error); } self.b[self.n] = c; self.n += 1; }
+        Ok(())
+    }
+}
+fn status_token(o: Option<Outcome>) -> &'static [u8] {
+    match o { None => b"*", Some(Outcome::Draw(_)) => b"1/2-1/2", Some(Outcome::Win { side: Color::White, .. }) => b"1-0", Some(Outcome::Win { side: Color::Black, .. }) => b"0-1" }
+}
+
+// ---- C17: the styled list of an EMPTY chain: every number policy, style, status policy, outcome ----
+harness! {
+    #[kani::unwind(10)]
+    fn c17_styled_list_empty_chain() {
+        let mut chain = BaseMoveChain::<NoRepeat>::new(Board::initial());
+        let outcome = any_outcome();
+        chain.reset_outcome(outcome);
+        let nums = match vk::any_u8() % 3 { 0 => NumberPolicy::Omit, 1 => NumberPolicy::FromBoard, _ => NumberPolicy::Custom(vk::any_u16() as usize) };
+        let style = match vk::any_u8() % 3 { 0 => moves::Style::San, 1 => moves::Style::SanUtf8, _ => moves::Style::Uci };
+        let show = vk::any_bool();
+        let mut o = Buf64 { b: [0; 64], n: 0 };
+        assert!(write!(o, "{}", chain.styled(nums, style, if show { GameStatusPolicy::Show } else { GameStatusPolicy::Hide })).is_ok());
+        // no moves: the text is the status token alone (matching the STORED outcome), or nothing
+        let want: &[u8] = if show { status_token(outcome) } else { b"" };
+        assert!(o.n == want.len());
+        let mut i = 0; while i < 7 { if i < want.len() { assert!(o.b[i] == want[i]); } i += 1; }
+        let mut u = Buf64 { b: [0; 64], n: 0 };
+        assert!(write!(u, "{}", chain.uci()).is_ok() && u.n == 0);
+    }
+}
+
+// ---- C17: the styled list and the UCI list of one fixed game starting with Black to move --------
+harness! {
+    #[kani::unwind(70)]
+    fn c17_lists_fixed_game() {
+        // start: after 1. e4 (Black to move, move number 1); game: 1... e5 2. Nf3 Nc6
+        let mut start = Board::initial();
+        let wp = Cell::from_parts(Color::White, Piece::Pawn); let bp = Cell::from_parts(Color::Black, Piece::Pawn);
+        let wn = Cell::from_parts(Color::White, Piece::Knight); let bn = Cell::from_parts(Color::Black, Piece::Knight);
+        start = start.make_move(mk(MoveKind::PawnDouble, wp, 52, 36)).unwrap();
+        let game = [mk(MoveKind::PawnDouble, bp, 12, 28), mk(MoveKind::Simple, wn, 62, 45), mk(MoveKind::Simple, bn, 1, 18)];
+        let mut chain = BaseMoveChain::<NoRepeat>::new(start.clone());
+        let mut i = 0; while i < 3 { assert!(chain.push(game[i]).is_ok()); i += 1; }
+        let outcome = any_outcome();
+        chain.reset_outcome(outcome);
+        let custom = vk::any_u8() as usize;
+        let nums = match vk::any_u8() % 3 { 0 => NumberPolicy::Omit, 1 => NumberPolicy::FromBoard, _ => NumberPolicy::Custom(custom) };
+        let show = vk::any_bool();
+        let mut o = Buf64 { b: [0; 64], n: 0 };
+        assert!(write!(o, "{}", chain.styled(nums, moves::Style::San, if show { GameStatusPolicy::Show } else { GameStatusPolicy::Hide })).is_ok());
+        // reference text
+        let mut w = Buf64 { b: [0; 64], n: 0 };
+        let first = match nums { NumberPolicy::Omit => None, NumberPolicy::FromBoard => Some(1usize), NumberPolicy::Custom(c) => Some(c) };
+        if let Some(nn) = first { let _ = write!(w, "{}... ", nn); }
+        let _ = w.write_str("e5");
+        if let Some(nn) = first { let _ = write!(w, " {}.", nn + 1); }
+        let _ = w.write_str(" Nf3 Nc6");
+        if show { let _ = w.write_str(" "); let _ = w.write_str(unsafe { core::str::from_utf8_unchecked(status_token(outcome)) }); }
+        assert!(o.n == w.n);
+        let mut i = 0; while i < 40 { if i < w.n { assert!(o.b[i] == w.b[i]); } i += 1; }
+        // UCI list: moves in order, single spaces; replaying it from the start rebuilds an equal chain
+        let mut u = Buf64 { b: [0; 64], n: 0 };
+        assert!(write!(u, "{}", chain.uci()).is_ok());
+        let want = b"e7e5 g1f3 b8c6";
+        assert!(u.n == want.len());
+        let mut i = 0; while i < 14 { assert!(u.b[i] == want[i]); i += 1; }
+        let mut again = BaseMoveChain::<NoRepeat>::from_uci_list(start, unsafe { core::str::from_utf8_unchecked(&u.b[..u.n]) }).unwrap();
+        again.reset_outcome(outcome);
+        assert!(again == chain && again.last().r == chain.last().r);
+    }
+}
